@@ -84,7 +84,8 @@ where
     F: FnMut(G::EdgeRef) -> K,
     K: Measure + Copy,
 {
-    let mut counter: Vec<usize> = vec![0; graph.node_count()];
+    // indexed by `to_index`, which ranges over `0..node_bound()` (not `node_count()` when indices are vacant)
+    let mut counter: Vec<usize> = vec![0; graph.node_bound()];
     let mut scores = HashMap::new();
     let mut visit_next = BinaryHeap::new();
     let zero_score = K::default();
